@@ -2,6 +2,7 @@
 constructors, canonical query answers.  Nothing here looks at a cache field, except [cache_status]
 (used by the correspondence only)."""
 import math
+import copy
 import random
 
 import numpy as np
@@ -301,7 +302,18 @@ def gen_cycle(rng):
 
 
 def gen_scenario(rng):
-    return scen.rand_scenario(rng, roles=["static", "dynamic", "dynamic", "dynamic_set", "dynamic_none", "phantom"])
+    sc = scen.rand_scenario(rng, roles=["static", "dynamic", "dynamic", "dynamic_set", "dynamic_none", "phantom"])
+    # two vehicles driving the same path: the second trajectory is built over the very list of states the first one
+    # holds (Trajectory keeps the list it is given); moving one vehicle must not reach the other (seed C11-14)
+    dyn = [o for o in sc.dynamic_obstacles if isinstance(o.prediction, TrajectoryPrediction)]
+    if dyn and rng.random() < 0.5:
+        a = dyn[0]
+        tr = a.prediction.trajectory
+        sc.add_objects(DynamicObstacle(sc.generate_object_id(), a.obstacle_type, copy.deepcopy(a.obstacle_shape),
+                                       copy.deepcopy(a.initial_state),
+                                       TrajectoryPrediction(Trajectory(tr.initial_time_step, tr.state_list),
+                                                            copy.deepcopy(a.prediction.shape))))
+    return sc
 
 
 def make(kind, seed):
